@@ -23,7 +23,8 @@ Brief(r) ==
           override |-> r.override,
           args |-> r.args, err |-> r.err, tiles |-> r.tiles, file |-> r.file]
     ELSE [ev |-> "recomp", id |-> r.id, src_tc |-> r.src_tc, target |-> r.target, force |-> r.force, fmt |-> r.fmt,
-          declared |-> r.declared, tiles |-> r.tiles, lookups |-> r.lookups, walk |-> r.walk, file |-> r.file]
+          declared |-> r.declared, tiles |-> r.tiles, lookups |-> r.lookups, walk |-> r.walk, file |-> r.file,
+          lookup_raw |-> r.lookup_raw, walk_raw |-> r.walk_raw]
 
 Init == l = 1
 Next ==
